@@ -331,7 +331,9 @@ func c13grammarAs(c *core.Ctx, R string) {
 	c.Extra["exhaustive"] = true
 }
 
-// checkNumberDriver verifies the three driver clauses structurally on SSA.
+// checkNumberDriver verifies the driver clauses structurally on SSA. The loop over the bytes may live
+// in Scan itself or in a helper of the package that reports acceptance as a bool (`if !s.accepts(v)
+// { return err }`); the normalisation may live in a helper that forwards the errors of the trims.
 func checkNumberDriver(scan *ssa.Function) map[string]bool {
 	res := map[string]bool{}
 	isField := func(v ssa.Value, name string) bool {
@@ -342,19 +344,38 @@ func checkNumberDriver(scan *ssa.Function) map[string]bool {
 		st, ok := fa.X.Type().Underlying().(*types.Pointer).Elem().Underlying().(*types.Struct)
 		return ok && st.Field(fa.Field).Name() == name
 	}
-	retErr := func(b *ssa.BasicBlock) bool {
-		// block (possibly via jumps) ends in a return whose last result is not the nil constant
+	isFinishedLoad := func(v ssa.Value) bool {
+		lo, ok := v.(*ssa.UnOp)
+		return ok && lo.Op == token.MUL && isField(lo.X, "finished")
+	}
+	isStateCall := func(v ssa.Value) bool {
+		call, ok := v.(*ssa.Call)
+		if !ok {
+			return false
+		}
+		lo, ok := call.Call.Value.(*ssa.UnOp)
+		return ok && lo.Op == token.MUL && isField(lo.X, "stateFn")
+	}
+	// rejecting return of f: a non-nil error as last result or, for a bool helper, the constant false
+	rejects := func(r *ssa.Return, boolHelper bool) bool {
+		if len(r.Results) == 0 {
+			return false
+		}
+		e := r.Results[len(r.Results)-1]
+		cst, isC := e.(*ssa.Const)
+		if boolHelper {
+			return isC && cst.Value != nil && cst.Value.Kind() == constant.Bool && !constant.BoolVal(cst.Value)
+		}
+		if isC && cst.Value == nil {
+			return false
+		}
+		return true
+	}
+	retRej := func(b *ssa.BasicBlock, boolHelper bool) bool {
 		for i := 0; i < 4 && b != nil; i++ {
 			last := b.Instrs[len(b.Instrs)-1]
 			if r, ok := last.(*ssa.Return); ok {
-				if len(r.Results) == 0 {
-					return false
-				}
-				e := r.Results[len(r.Results)-1]
-				if cst, ok := e.(*ssa.Const); ok && cst.Value == nil {
-					return false
-				}
-				return true
+				return rejects(r, boolHelper)
 			}
 			if _, ok := last.(*ssa.Jump); ok {
 				b = b.Succs[0]
@@ -364,101 +385,160 @@ func checkNumberDriver(scan *ssa.Function) map[string]bool {
 		}
 		return false
 	}
+	// functions that take part: Scan, and bool helpers of the package whose false result makes Scan reject
+	type part struct {
+		f    *ssa.Function
+		bool bool
+	}
+	parts := []part{{scan, false}}
+	helperResult := map[*ssa.Call]bool{} // calls in Scan of an accepted bool helper
 	for _, b := range scan.Blocks {
-		for i, in := range b.Instrs {
-			call, ok := in.(*ssa.Call)
-			if !ok {
-				continue
-			}
-			lo, ok := call.Call.Value.(*ssa.UnOp)
-			if !ok || lo.Op != token.MUL || !isField(lo.X, "stateFn") {
-				continue
-			}
-			// clause 1: a store finished=true earlier in this block, none after it before the call
-			for j := i - 1; j >= 0; j-- {
-				if st, ok := b.Instrs[j].(*ssa.Store); ok && isField(st.Addr, "finished") {
-					if cst, ok := st.Val.(*ssa.Const); ok && cst.Value != nil && constant.BoolVal(cst.Value) {
-						res["finished=true before the state call"] = true
+		ifi, ok := b.Instrs[len(b.Instrs)-1].(*ssa.If)
+		if !ok {
+			continue
+		}
+		cond := ifi.Cond
+		falseSucc := b.Succs[1]
+		if u, ok := cond.(*ssa.UnOp); ok && u.Op == token.NOT {
+			cond, falseSucc = u.X, b.Succs[0]
+		}
+		call, ok := cond.(*ssa.Call)
+		if !ok {
+			continue
+		}
+		g := call.Call.StaticCallee()
+		if g == nil || g.Pkg != scan.Pkg || g.Blocks == nil || g.Signature.Results().Len() != 1 {
+			continue
+		}
+		if bt, ok := g.Signature.Results().At(0).Type().Underlying().(*types.Basic); !ok || bt.Kind() != types.Bool {
+			continue
+		}
+		if retRej(falseSucc, false) {
+			parts = append(parts, part{g, true})
+			helperResult[call] = true
+		}
+	}
+	for _, p := range parts {
+		for _, b := range p.f.Blocks {
+			for i, in := range b.Instrs {
+				call, isCall := in.(*ssa.Call)
+				if !isCall || !isStateCall(call) {
+					continue
+				}
+				// clause 1: a store finished=true earlier in this block, none after it before the call
+				for j := i - 1; j >= 0; j-- {
+					if st, ok := b.Instrs[j].(*ssa.Store); ok && isField(st.Addr, "finished") {
+						if cst, ok := st.Val.(*ssa.Const); ok && cst.Value != nil && constant.BoolVal(cst.Value) {
+							res["finished=true before the state call"] = true
+						}
+						break
 					}
-					break
+				}
+				// clause 2
+				if ifi, ok := b.Instrs[len(b.Instrs)-1].(*ssa.If); ok && ifi.Cond == ssa.Value(call) {
+					res["false result returns an error"] = retRej(b.Succs[1], p.bool)
 				}
 			}
-			// clause 2
-			if ifi, ok := b.Instrs[len(b.Instrs)-1].(*ssa.If); ok && ifi.Cond == ssa.Value(call) {
-				res["false result returns an error"] = retErr(b.Succs[1])
+			last := b.Instrs[len(b.Instrs)-1]
+			if ifi, ok := last.(*ssa.If); ok && isFinishedLoad(ifi.Cond) {
+				res["!finished after the loop returns an error"] = retRej(b.Succs[1], p.bool)
 			}
-		}
-		if ifi, ok := b.Instrs[len(b.Instrs)-1].(*ssa.If); ok {
-			if lo, ok := ifi.Cond.(*ssa.UnOp); ok && lo.Op == token.MUL && isField(lo.X, "finished") {
-				res["!finished after the loop returns an error"] = retErr(b.Succs[1])
+			// a bool helper may hand the flag itself to the caller, which rejects on false
+			if r, ok := last.(*ssa.Return); ok && p.bool && len(r.Results) == 1 && isFinishedLoad(r.Results[0]) {
+				res["!finished after the loop returns an error"] = true
 			}
 		}
 	}
-	// clause 4: no other rejection. Every return with a non-nil error either forwards the error of
-	// setExp / the two trims, or is controlled by the state-call result / the finished flag.
-	res["no rejection besides the state machine, the finished flag, setExp and the trims"] = true
-	for _, b := range scan.Blocks {
-		ret, ok := b.Instrs[len(b.Instrs)-1].(*ssa.Return)
-		if !ok || len(ret.Results) == 0 {
-			continue
-		}
-		e := ret.Results[len(ret.Results)-1]
-		if cst, ok := e.(*ssa.Const); ok && cst.Value == nil {
-			continue
-		}
-		forwarded := false
-		var origin func(v ssa.Value, d int) bool
-		origin = func(v ssa.Value, d int) bool {
-			if d > 4 {
-				return false
-			}
-			switch x := v.(type) {
-			case *ssa.Call:
-				if sc := x.Call.StaticCallee(); sc != nil {
-					switch sc.Name() {
-					case "setExp", "trimLeadingZerosInTheIntegerPart", "trimTrailingZerosInTheFractionalPart":
-						return true
-					}
-				}
-			case *ssa.Extract:
-				return origin(x.Tuple, d+1)
-			case *ssa.Phi:
-				for _, ed := range x.Edges {
-					if !origin(ed, d+1) {
-						return false
-					}
-				}
-				return len(x.Edges) > 0
-			case *ssa.MakeInterface:
-				return origin(x.X, d+1)
-			case *ssa.ChangeInterface:
-				return origin(x.X, d+1)
-			}
+	// clause 4: no other rejection. Every rejecting return either forwards the error of setExp / the
+	// two trims (directly or through a helper that only forwards them), or is controlled by the
+	// state-call result / the finished flag / the result of the accepting helper.
+	const k4 = "no rejection besides the state machine, the finished flag, setExp and the trims"
+	res[k4] = true
+	var forwardsOnly func(f *ssa.Function, d int) bool
+	var origin func(v ssa.Value, d int) bool
+	origin = func(v ssa.Value, d int) bool {
+		if d > 6 {
 			return false
 		}
-		forwarded = origin(e, 0)
-		if forwarded {
-			continue
-		}
-		controlled := false
-		for d, i := b, 0; d != nil && i < 4; d, i = d.Idom(), i+1 {
-			id := d.Idom()
-			if id == nil {
-				break
+		switch x := v.(type) {
+		case *ssa.Call:
+			if sc := x.Call.StaticCallee(); sc != nil {
+				switch sc.Name() {
+				case "setExp", "trimLeadingZerosInTheIntegerPart", "trimTrailingZerosInTheFractionalPart":
+					return true
+				}
+				if sc.Pkg == scan.Pkg && sc.Blocks != nil {
+					return forwardsOnly(sc, d+1)
+				}
 			}
-			if ifi, ok := id.Instrs[len(id.Instrs)-1].(*ssa.If); ok {
-				if call, ok := ifi.Cond.(*ssa.Call); ok {
-					if lo, ok := call.Call.Value.(*ssa.UnOp); ok && isField(lo.X, "stateFn") {
+		case *ssa.Extract:
+			return origin(x.Tuple, d+1)
+		case *ssa.Phi:
+			for _, ed := range x.Edges {
+				if cst, ok := ed.(*ssa.Const); ok && cst.Value == nil {
+					continue
+				}
+				if !origin(ed, d+1) {
+					return false
+				}
+			}
+			return len(x.Edges) > 0
+		case *ssa.MakeInterface:
+			return origin(x.X, d+1)
+		case *ssa.ChangeInterface:
+			return origin(x.X, d+1)
+		}
+		return false
+	}
+	forwardsOnly = func(f *ssa.Function, d int) bool {
+		n := 0
+		for _, b := range f.Blocks {
+			r, ok := b.Instrs[len(b.Instrs)-1].(*ssa.Return)
+			if !ok || len(r.Results) == 0 {
+				continue
+			}
+			e := r.Results[len(r.Results)-1]
+			if cst, ok := e.(*ssa.Const); ok && cst.Value == nil {
+				continue
+			}
+			n++
+			if !origin(e, d) {
+				return false
+			}
+		}
+		return n > 0
+	}
+	for _, p := range parts {
+		for _, b := range p.f.Blocks {
+			ret, ok := b.Instrs[len(b.Instrs)-1].(*ssa.Return)
+			if !ok || !rejects(ret, p.bool) {
+				continue
+			}
+			if !p.bool && origin(ret.Results[len(ret.Results)-1], 0) {
+				continue
+			}
+			controlled := false
+			for d, i := b, 0; d != nil && i < 4; d, i = d.Idom(), i+1 {
+				id := d.Idom()
+				if id == nil {
+					break
+				}
+				if ifi, ok := id.Instrs[len(id.Instrs)-1].(*ssa.If); ok {
+					cond := ifi.Cond
+					if u, ok := cond.(*ssa.UnOp); ok && u.Op == token.NOT {
+						cond = u.X
+					}
+					if isStateCall(cond) || isFinishedLoad(cond) {
+						controlled = true
+					}
+					if call, ok := cond.(*ssa.Call); ok && helperResult[call] {
 						controlled = true
 					}
 				}
-				if lo, ok := ifi.Cond.(*ssa.UnOp); ok && lo.Op == token.MUL && isField(lo.X, "finished") {
-					controlled = true
-				}
 			}
-		}
-		if !controlled {
-			res["no rejection besides the state machine, the finished flag, setExp and the trims"] = false
+			if !controlled {
+				res[k4] = false
+			}
 		}
 	}
 	return res
